@@ -14,7 +14,7 @@ META = dict(
 )
 from .c14 import t_flood
 from ..runner import Job
-TEMPLATES = {'tree': t_tree, 's1.flood': t_flood}
+TEMPLATES = {'tree': t_tree, 's1.flood': t_flood}  # + s1.bridge (below)
 
 
 def explicit():
@@ -30,6 +30,89 @@ def fw_child():
     cfg = S.forward_chain(2, topo='chain')
     cfg['handlers'].append(['A', 'P', 'hDisp', [['disp', 'A', 'L', 'Lc'], ['ret', 'd']]])
     return cfg
+
+
+def t_bridge(ctx):
+    """A handler ships the event it is handling to another bus as a *re-validated copy* (same event_id, different Python object:
+    JSON round trip, model_validate, model_copy — what a bridge between processes does).  The copy is still that event: it must
+    keep its parent (none for a root), never become its own parent or child, and the original's lineage must not change."""
+    import asyncio
+    from ..base import Exact
+    from ..events import C, P
+    how = ctx.pick('how', ('json', 'validate', 'model_copy', 'same_object'))
+    which = ctx.pick('which', ('root', 'child', 'both'))
+    d = ctx.real('d', 0, Exact('1/5'))
+    ctx.new_loop(horizon=5)
+    a, b = ctx.bus('A'), ctx.bus('B')
+    got = []          # (original, copy) pairs
+    seen_on_b = []
+
+    def ship(ev):
+        if how == 'json':
+            cp = type(ev).model_validate_json(ev.model_dump_json())
+        elif how == 'validate':
+            cp = type(ev).model_validate(ev.model_dump())
+        elif how == 'model_copy':
+            cp = ev.model_copy()
+        else:
+            cp = ev
+        got.append((ev, cp, ev.event_parent_id))
+        b.dispatch(cp)
+
+    async def hP(h, ev):
+        await h.sleep(d)
+        c = h.dispatch(a, ctx.ev(C, 'C1', event_timeout=30.0))
+        if which in ('root', 'both'):
+            ship(ev)
+        await h.wait(c)
+        return 'p'
+
+    async def hC(h, ev):
+        if which in ('child', 'both'):
+            ship(ev)
+        return 'c'
+    ctx.on(a, P, 'hP', hP)
+    ctx.on(a, C, 'hC', hC)
+
+    def on_b(ev):
+        seen_on_b.append(ev)
+        return 'b'
+    on_b.__name__ = 'on_b'
+    b.on('*', on_b)
+    st = {}
+
+    async def main():
+        m = ctx.main
+        p = m.dispatch(a, ctx.ev(P, 'P1', event_timeout=30.0))
+        st['p'] = p
+        await m.wait(p)
+        await a.wait_until_idle()
+        await b.wait_until_idle()
+        await asyncio.sleep(Exact('1/10'))
+        ctx.rec('MAINEND')
+    fin = ctx.run(main())
+    ctx.check('C09.terminates', bool(fin))
+    if not fin:
+        return
+    p = st['p']
+    c = ctx.events['C1']
+    ctx.check('C09.parent', p.event_parent_id is None, ev='P1', got=p.event_parent_id, why='root got a parent')
+    ctx.check('C09.parent', c.event_parent_id == p.event_id, ev='C1')
+    ctx.check('C09.bridged_arrives', len(seen_on_b) == len(got), sent=len(got), seen=len(seen_on_b))
+    for (orig, cp, parent_before) in got:
+        lab = ctx.label(orig)
+        ctx.witness('bridged ' + ('copy' if cp is not orig else 'object'))
+        for x in (orig, cp):
+            ctx.check('C09.not_self', x.event_parent_id != x.event_id, ev=lab, copy=x is cp, why='event is its own parent')
+            ctx.check('C09.parent', x.event_parent_id == parent_before, ev=lab, copy=x is cp, before=parent_before, got=x.event_parent_id,
+                      why='bridging changed the parent')
+        for holder in (orig, cp):
+            for r in holder.event_results.values():
+                ctx.check('C09.not_self', not any(k.event_id == orig.event_id for k in r.event_children), ev=lab, handler=r.handler_name,
+                          why='event listed among its own children')
+    # the child is listed exactly once, under hP of the original root
+    n = sum(1 for r in p.event_results.values() for k in r.event_children if k.event_id == c.event_id)
+    ctx.check('C09.child_once', n == 1, ev='C1', n=n)
 
 
 def jobs(tier):
@@ -56,6 +139,10 @@ def jobs(tier):
             mk('C09', 'x2/other_running', S.two_bus_await('other_running', ('B', 'A')), witnesses=W, max_paths=6000),
         ]
     out.append(Job('C09', 's1.flood', t_flood, dict(n_range=[50, 53], retry=True), witnesses=('retry accepted',)))
+    out.append(Job('C09', 's1.bridge', t_bridge, {}, witnesses=('bridged copy', 'bridged object')))
     out += matrix_jobs('C09', 'm1', tier)
     out += matrix_jobs('C09', 'm3', tier)
     return flat(out)
+
+
+TEMPLATES['s1.bridge'] = t_bridge
